@@ -1297,7 +1297,9 @@ class Expression(Expr):
             else:
                 parent.set(key, expression, self.index)
 
-        if expression is not self:
+        if expression is not self and not (
+            type(expression) is list and any(e is self for e in expression)
+        ):
             self.parent = None
             self.arg_key = None
             self.index = None
